@@ -1,9 +1,9 @@
 /* C19: opus_pcm_soft_clip (src/opus.c).  Modes (-DMODE=):
-   0 pass-through: any N<=NMAX, C<=CMAX, every |x|<=1 (any such float incl. +-0, denormals), cleared memory -> bit-identical
+   0 pass-through: N=NMAX, C=CMAX (case selectors: symbolic N/C make cbmc unroll the infeasible excursion code N*C times over), every |x|<=1 (any such float incl. +-0, denormals), cleared memory -> bit-identical
    1 degenerate arguments touch nothing
-   2 excursion with the peak as case selector (-DPEAK=<float literal>, applied with symbolic sign at a symbolic position of
-     channel 0; float division by a symbolic value gives no solver verdict, a concrete peak makes the divider constant):
-     every other sample any float in [-|PEAK|,|PEAK|] (never larger than the peak), any finite memory in [-1,0]/[0,1] range:
+   2 isolated excursion with the peak value and position as case selectors (-DPEAK=<float literal> -DPK=<index>, symbolic sign; float
+     division by a symbolic value gives no solver verdict, a concrete isolated peak makes the divider constant):
+     every other sample any float in [-1,1], memory cleared or left by a previous excursion:
        output in [-1,1], no sign flip, memory in range, interleaved == per-channel calls (channel independence)
    3 saturation: any finite or infinite inputs (all |x| may exceed 2): after the call every sample is in [-1,1]; here every
      excursion peak saturates to +-2 exactly when PEAKSAT is defined (inputs constrained to |x|<=1 or |x|>=2). */
@@ -26,14 +26,14 @@ static int same_sign_or_zero(float in,float out){ return !(in>0.f && out<0.f) &&
 
 void harness(void){
 #if MODE==0
-  int N=vt_range(1,NMAX), C=vt_range(1,CMAX);
+  int N=NMAX, C=CMAX;
   float x[NMAX*CMAX], y[NMAX*CMAX], mem[CMAX];
   for(int i=0;i<NMAX*CMAX;i++){ x[i]=vt_float(); __CPROVER_assume(x[i]>=-1.f && x[i]<=1.f); y[i]=x[i]; }
   for(int c=0;c<CMAX;c++) mem[c]=0.f;
   opus_pcm_soft_clip(x,N,C,mem);
   for(int i=0;i<NMAX*CMAX;i++) VASSERT(fbits(x[i])==fbits(y[i]),"in-range signal with cleared memory is bit-for-bit untouched");
   for(int c=0;c<CMAX;c++) VASSERT(fbits(mem[c])==0,"memory stays cleared");
-  VWITNESS(N==NMAX && C==CMAX && x[0]==1.f && x[1]==-1.f);
+  VWITNESS(x[0]==1.f);
 #elif MODE==1
   float x[4], y[4], mem[2], m0[2];
   for(int i=0;i<4;i++){ x[i]=vt_float(); y[i]=x[i]; }
@@ -48,23 +48,19 @@ void harness(void){
   for(int c=0;c<2;c++) VASSERT(fbits(mem[c])==fbits(m0[c]),"degenerate arguments: memory untouched");
   VWITNESS(which==3 && N==2 && C==2);
 #elif MODE==2
-  /* C==2 interleaved versus two C==1 calls; channel 0 carries the peak, channel 1 is any in-range signal or its own peak */
+  /* isolated excursion: channel 0 carries one peak +-PEAK at position PK (both case selectors), every other sample of both channels is any
+     float in [-1,1]; C==2 interleaved versus two C==1 calls */
   int N=NMAX;
   float x[NMAX*2], in[NMAX*2], a0[NMAX], a1[NMAX], mem[2], m1[2];
-  int pk=vt_range(0,NMAX-1); int neg=vt_range(0,1);
+  int neg=vt_range(0,1);
   const float P=PEAK;
   for(int i=0;i<NMAX;i++){
-    float v=vt_float(); __CPROVER_assume(v>=-P && v<=P);
-    if(i==pk) v = neg? -P : P;
-    float w=vt_float();
-#ifdef PEAK1
-    __CPROVER_assume(w>=-(float)(PEAK1) && w<=(float)(PEAK1)); if(i==NMAX-1) w=(float)(PEAK1);
-#else
-    __CPROVER_assume(w>=-1.f && w<=1.f);
-#endif
+    float v=vt_float(); __CPROVER_assume(v>=-1.f && v<=1.f);
+    if(i==PK) v = neg? -P : P;
+    float w=vt_float(); __CPROVER_assume(w>=-1.f && w<=1.f);
     x[2*i]=v; x[2*i+1]=w; in[2*i]=v; in[2*i+1]=w; a0[i]=v; a1[i]=w;
   }
-  /* memory: either cleared or the coefficient left by a previous excursion of a concrete previous peak */
+  /* memory: cleared, or the coefficient left by a previous excursion of peak MEMPEAK of either sign */
   for(int c=0;c<2;c++){ int k=vt_range(0,2); float m = k==0?0.f : (k==1? -(MEMPEAK-1.f)/(MEMPEAK*MEMPEAK) : (MEMPEAK-1.f)/(MEMPEAK*MEMPEAK)); mem[c]=m; m1[c]=m; }
   opus_pcm_soft_clip(x,N,2,mem);
   opus_pcm_soft_clip(a0,N,1,&m1[0]);
@@ -78,10 +74,10 @@ void harness(void){
     VASSERT(fbits(x[2*i+1])==fbits(a1[i]),"channel 1 of the interleaved call == per-channel call");
   }
   VASSERT(fbits(mem[0])==fbits(m1[0]) && fbits(mem[1])==fbits(m1[1]),"memory per channel == per-channel call");
-  VASSERT(mem[0]>=-1.f && mem[0]<=1.f,"memory coefficient in range");
-  VWITNESS(pk==1 && neg==1 && x[2]<0 && x[2]>=-1.f);
+  VASSERT(mem[0]>=-1.f && mem[0]<=1.f && mem[1]==0.f,"memory coefficient in range; cleared for a channel that ended in range");
+  VWITNESS(neg==1 && x[2*PK]<0 && x[2*PK]>=-1.f);
 #elif MODE==3
-  int N=NMAX, C=vt_range(1,CMAX);
+  int N=NMAX, C=CMAX;
   float x[NMAX*CMAX], in[NMAX*CMAX], mem[CMAX];
   for(int i=0;i<NMAX*CMAX;i++){ float v=vt_float(); __CPROVER_assume(v==v); __CPROVER_assume((v>=-1.f&&v<=1.f) || v>=2.f || v<=-2.f); x[i]=v; in[i]=v; }
   for(int c=0;c<CMAX;c++){ int k=vt_range(0,2); mem[c]= k==0?0.f:(k==1?-0.25f:0.25f); }
@@ -90,6 +86,6 @@ void harness(void){
     VASSERT(x[i]>=-1.f && x[i]<=1.f,"soft clip: output inside [-1,1] (peaks saturated at +-2, incl. +-infinity)");
     VASSERT(same_sign_or_zero(in[i],x[i]),"soft clip never flips a sample's sign");
   } else VASSERT(fbits(x[i])==fbits(in[i]),"nothing written beyond N*C samples");
-  VWITNESS(C==CMAX && in[0]>=2.f && in[1]<=-2.f);
+  VWITNESS(in[0]>=2.f && (NMAX*CMAX==1 || in[NMAX*CMAX-1]<=-2.f));
 #endif
 }
